@@ -3,7 +3,7 @@
 # model's expectation are derived; shrinking edits the world, never the plan.
 from .models import Tree, m5, norm, norm_suffix, basename, render_plain
 
-NAME_POOL = ["10-a", "9-b", "100-c", "A", "a", "B", "_x", "~y", "0", "00", ".h", "sp ace", "\xe9t\xe9", "a.b", "-dash"]
+NAME_POOL = ["10-a", "9-b", "100-c", "A", "a", "B", "_x", "~y", "0", "00", ".h", "sp ace", "\xe9t\xe9", "a.b", "-dash", "%s%n", "50%d"]
 KEYS = ["x", "y", "z", "w"]
 SECS = ["A", "B", "Sec 1"]
 MAIN_STATES = ["absent", "regular", "empty", "devnull"]
@@ -158,7 +158,7 @@ def gen_layered_world(rng, i, two_layer=None, want_files=True, small=False, allo
         two_layer = shape < 0.25
     suffix_sp = rng.pick(["conf", ".conf", "conf", ".conf", None, "", "conf.in", ".cfg.local"]) if allow_nosuffix else rng.pick(["conf", ".conf", "conf.in"])
     read["suffix"] = suffix_sp
-    name = rng.pick(["app", "a", "my.app"])
+    name = rng.pick(["app", "a", "my.app", "app", "a", "my.app", "p%s%n"])
     read["name"] = name
     if two_layer:
         read["ep"] = "readDirs"
@@ -204,7 +204,7 @@ def gen_layered_world(rng, i, two_layer=None, want_files=True, small=False, allo
         if rng.chance(0.25) and (read["opts"].get("parsing_dirs") or read["opts"].get("root_prefix")):
             read["opts"]["root_prefix"] = True
     if rng.chance(0.3):
-        read["global_dirs"] = rng.pick([[".d"], [".conf.d", ".d"], ["/conf.d", ".d"], [".x.d"], ["/conf.d"]])
+        read["global_dirs"] = rng.pick([[".d"], [".conf.d", ".d"], ["/conf.d", ".d"], [".x.d"], ["/conf.d"], [".a.d", ".b.d", ".c.d"]])
     if rng.chance(0.15):
         read["global_pre"] = rng.pick([[[".old.d"]], [["/x.d", ".y.d"]], [[".d"], ["/conf.d"]]])
     if rng.chance(0.2):
